@@ -53,7 +53,30 @@ def cost_table(c, cgb, ver):
             t = f.term(b)
             if t["k"] == "call" and val is None and f.names().get(t["dest"][0]) == "res":
                 callee = t["f"].get("res", t["f"]["path"])
-                val = "call:" + callee.split("::")[-1]
+                # the arguments matter too (which label a branch cost is computed from): summarise their sources
+                srcs = set()
+                for a in t["args"]:
+                    for at in f.origins(a, deep=True):
+                        if at[0] in ("call", "callres") and not re.search(r"Try::branch|from_residual|ok_or|deref|anyhow|Context", at[1]):
+                            srcs.add(at[1].split("::")[-1])
+                        elif at[0] == "field":
+                            srcs.add("." + at[1])
+                # control dependence: an argument chosen by a branch depends on what the branch tests
+                from vlib.mir import path_conditions
+                for a in t["args"]:
+                    pl = op_place(a)
+                    if pl is None:
+                        continue
+                    r = rules.root_local(f, a)
+                    ds = f.defs().get(r[0], []) if r else []
+                    if len(ds) > 1:
+                        for (db, si, it) in ds:
+                            for (sb2, v2) in path_conditions(f, db):
+                                if sb2 in region:
+                                    for at in f.origins(f.term(sb2)["d"], deep=True):
+                                        if at[0] in ("call", "callres") and not re.search(r"Try::branch|from_residual|ok_or|deref|anyhow|Context|PartialEq", at[1]):
+                                            srcs.add("if:" + at[1].split("::")[-1])
+                val = "call:" + callee.split("::")[-1] + ("{" + ",".join(sorted(srcs)) + "}" if srcs else "")
         tab[names[int(v)]] = val
     wildcard = f.term(sw[1]["o"])["k"] != "unreachable"
     fns = {}
@@ -68,7 +91,7 @@ def min_cost(entry, fns):
     if entry is None:
         return None
     if entry.startswith("call:"):
-        e = fns.get(entry[5:])
+        e = fns.get(entry[5:].split("{")[0])
         if e is None:
             return None
         entry = e
